@@ -38,12 +38,31 @@ func c12bytes(name string, n int) []byte {
 	return b
 }
 
+// c12sig: a secp256k1 signature field: nsig concatenated 65-byte signatures (v1.11 allows Safe multisig lists), with
+// symbolic bytes at the start, around the boundary and in the tail of the last signature.
+func c12sig(name string, nsig int) []byte {
+	b := make([]byte, 65*nsig)
+	b[0] = vrt.Byte(name)
+	if nsig > 1 {
+		b[64] = vrt.Byte(name + ".64")
+		b[65] = vrt.Byte(name + ".65")
+		b[66] = vrt.Byte(name + ".66")
+		b[100] = vrt.Byte(name + ".100")
+		b[65*nsig-1] = vrt.Byte(name + ".last")
+	}
+	return b
+}
+
 const (
 	c12AddrA = "0x0000000000000000000000000000000000000aaa"
 	c12AddrB = "0x0000000000000000000000000000000000000bbb"
 )
 
 func c12def(p string, version string, nops, nvals, namts int) Definition {
+	nsig := 1
+	if vrt.Param("nsig") == 2 {
+		nsig = 2
+	}
 	d := Definition{
 		UUID:              c12pick(p+"uuid", "uuid-A", "uuid-B"),
 		Name:              c12pick(p+"name", "name-A", "name-B"),
@@ -60,13 +79,13 @@ func c12def(p string, version string, nops, nvals, namts int) Definition {
 	if version == v1_0 {
 		d.Timestamp = "" // the timestamp field exists from v1.1 on; a v1.0 definition hash does not cover one
 	}
-	d.Creator = Creator{Address: c12pick(p+"creator", c12AddrA, c12AddrB), ConfigSignature: c12bytes(p+"creatorsig", 65)}
+	d.Creator = Creator{Address: c12pick(p+"creator", c12AddrA, c12AddrB), ConfigSignature: c12sig(p+"creatorsig", nsig)}
 	for i := 0; i < nops; i++ {
 		d.Operators = append(d.Operators, Operator{
 			Address:         c12pick(vrt.N(p+"opaddr", i), c12AddrA, c12AddrB),
 			ENR:             c12pick(vrt.N(p+"openr", i), "enr:-A", "enr:-B"),
-			ConfigSignature: c12bytes(vrt.N(p+"opcsig", i), 65),
-			ENRSignature:    c12bytes(vrt.N(p+"opesig", i), 65),
+			ConfigSignature: c12sig(vrt.N(p+"opcsig", i), nsig),
+			ENRSignature:    c12sig(vrt.N(p+"opesig", i), nsig),
 		})
 	}
 	for i := 0; i < nvals; i++ {
